@@ -394,7 +394,13 @@ func c10DrawBurn(rt *rapid.T) c10Burn {
 			target *= float64(sh.den) // byte-oriented shapes: cheap per unit
 		}
 		if sh.two {
-			b.N = rapid.SampledFrom([]int{16, 256, 4096, 65536, 1 << 20}).Draw(rt, "n")
+			if sh.den > 1 {
+				// byte-oriented shapes: large blocks, so that the interpreted
+				// loop around them is negligible per byte
+				b.N = rapid.SampledFrom([]int{4096, 65536, 1 << 18, 1 << 20, 1 << 20}).Draw(rt, "nbytes")
+			} else {
+				b.N = rapid.SampledFrom([]int{16, 256, 4096, 65536, 1 << 20}).Draw(rt, "n")
+			}
 			if b.N > sh.maxN {
 				b.N = sh.maxN
 			}
